@@ -424,6 +424,23 @@ impl Prop for C08 {
                 Err(_) => Ok(None),
             }
         });
+        // ... and neither must a valid one: the genuine event is verified immediately before its tampered copy (same
+        // id and signature unless the mutation touches them), as when two clients relay the same event
+        if mutated {
+            if let Ok(genuine) = reference.to_owned_event() {
+                match verify_res(&genuine) {
+                    Ok(Ok(())) => {}
+                    Ok(Err(e)) => {
+                        out.fail("C08:valid-event-rejected:genuine-before-mutant", format!("a correctly hashed and signed event fails verify(): {e}"));
+                        return out;
+                    }
+                    Err(f) => {
+                        out.fail(format!("C08:{}", f.key), f.detail);
+                        return out;
+                    }
+                }
+            }
+        }
         let mut results: Vec<(&str, Result<(), String>)> = Vec::new();
         match verify_res(&oe) {
             Ok(r) => results.push(("from-parts", r)),
